@@ -3,6 +3,7 @@ import TrionModel.Driver.Layout
 import TrionModel.Driver.Parse
 import TrionModel.Driver.Uf2
 import TrionModel.Driver.Trias
+import TrionModel.Driver.Lex
 /-! `trion-model`: one request per line on stdin, one reply per line on stdout.
 The first word selects the component; every request is self-contained (pure). -/
 open Trion.Driver
@@ -13,6 +14,7 @@ def dispatch : List String → String
   | "parse" :: r => Parse.handle r
   | "uf2" :: r => Uf2.handle r
   | "trias" :: r => Trias.handle r
+  | "lex" :: r => Lex.handle r
   | ["ping"] => "pong"
   | _ => "bad-op"
 
